@@ -27,12 +27,11 @@ def mval_sx(v):
         return ["b", v]
     if isinstance(v, int):
         return ["i", v]
-    if isinstance(v, float):
-        v = Decimal(str(v))
-    if isinstance(v, Decimal):
-        sign, digits, exp = v.as_tuple()
+    if isinstance(v, (float, Decimal)):
+        tag = "fl" if isinstance(v, float) else "d"
+        sign, digits, exp = Decimal(str(v)).as_tuple() if isinstance(v, float) else v.as_tuple()
         m = int("".join(map(str, digits)) or "0")
-        return ["d", -m if sign else m, exp]
+        return [tag, -m if sign else m, exp]
     if isinstance(v, FormatString):
         return ["f"] + core.cps(str.__str__(v))
     if isinstance(v, Enum):
